@@ -24,6 +24,7 @@ KeyClass(tok) ==
     [] tok \in {"2", "2.0"}                   -> "n:2"
     [] tok = "1px"                            -> "n:1px"
     [] tok = "2px"                            -> "n:2px"
+    [] tok \in {"1in", "96px"}                -> "n:1in"    \* compatible units: equal after conversion
     [] tok \in {"qa", "a", "sa"}              -> "s:a"
     [] tok \in {"qb", "b", "sb"}              -> "s:b"
     [] tok \in {"qc", "c", "sc"}              -> "s:c"
@@ -58,6 +59,10 @@ MRemove(m, k) ==
   LET p == Find(m, k) IN
   IF p = 0 THEN m ELSE SubSeq(m, 1, p - 1) \o SubSeq(m, p + 1, Len(m))
 
+RECURSIVE MRemoveAll(_, _)
+(* map.remove with several keys: one after the other *)
+MRemoveAll(m, ks) == IF ks = <<>> THEN m ELSE MRemoveAll(MRemove(m, Head(ks)), Tail(ks))
+
 RECURSIVE MMerge(_, _)
 (* m1's entries in m1's order with m2's values winning, then m2's new keys *)
 MMerge(m1, m2) == IF m2 = <<>> THEN m1 ELSE MMerge(MSet(m1, m2[1].k, m2[1].v), Tail(m2))
@@ -80,14 +85,16 @@ RNull    == [k |-> "null", n |-> 0]
 RBool(b) == [k |-> "bool", n |-> IF b THEN 1 ELSE 0]
 RErr     == [k |-> "err",  n |-> 0]
 
-(* One action.  op = [f, k, v, m2]:                                        *)
-(*   get k / has-key k / remove k / set k v / merge m2 / literal m2 / eq m2 *)
+(* One action.  op = [f, k, v, m2, ks]:                                    *)
+(*   get k / has-key k / remove k / remove-all ks (map.remove with several  *)
+(*   keys) / set k v / merge m2 / literal m2 / eq m2                        *)
 (* Returns [m |-> next state, r |-> result].  `literal` evaluates a map    *)
 (* literal (an error when two of its keys are ==) and makes it the state.  *)
 Step(m, op, Dev) ==
   CASE op.f = "get"     -> [m |-> m, r |-> (LET p == Find(m, op.k) IN IF p = 0 THEN RNull ELSE RNum(m[p].v))]
     [] op.f = "has-key" -> [m |-> m, r |-> RBool(HasKey(m, op.k))]
     [] op.f = "remove"  -> [m |-> MRemove(m, op.k), r |-> RNone]
+    [] op.f = "remove-all" -> [m |-> MRemoveAll(m, op.ks), r |-> RNone]
     [] op.f = "set"     -> [m |-> MSet(m, op.k, op.v), r |-> RNone]
     [] op.f = "merge"   -> [m |-> MMerge(m, op.m2), r |-> RNone]
     [] op.f = "literal" -> IF KeysUnique(op.m2) THEN [m |-> op.m2, r |-> RNone] ELSE [m |-> m, r |-> RErr]
@@ -136,6 +143,17 @@ LawRemove(m, k) ==
   /\ ~HasKey(m2, k)
   /\ (KeysUnique(m) => \A p \in 1..Len(m) : ~KeyEq(m[p].k, k) => (Find(m2, m[p].k) # 0 /\ m2[Find(m2, m[p].k)].v = m[p].v))
   /\ \A p, q \in 1..Len(m2) : p < q => Find(m, m2[p].k) < Find(m, m2[q].k)       \* order kept
+
+(* removing several keys: exactly the entries whose key is == to none of *)
+(* them stay, in order, whatever the order in which the keys are given   *)
+SeqRev(q) == [p \in 1..Len(q) |-> q[Len(q) + 1 - p]]
+LawRemoveAll(m, ks) ==
+  LET r == MRemoveAll(m, ks)
+      Keep(e) == \A p \in 1..Len(ks) : ~KeyEq(e.k, ks[p]) IN
+  KeysUnique(m) =>
+    /\ r = SelectSeq(m, Keep)
+    /\ r = MRemoveAll(m, SeqRev(ks))
+    /\ \A p \in 1..Len(ks) : ~HasKey(r, ks[p])
 
 LawMerge(m1, m2) ==
   LET r == MMerge(m1, m2) IN
